@@ -338,12 +338,14 @@ end perform
 
 /-- what every decision function guarantees about the state it returns and the act it chooses:
 counters, activity, authentication flag and channels are untouched; a pinned username stays; every
-credential callback it names asks about the pinned username; plain messages are harmless -/
+credential callback it names asks about the pinned username; plain messages are harmless; a
+connection-layer handler is chosen only for an authenticated client or an existing channel -/
 def DecOK (s s1 : St) (a : Act) : Prop :=
   s1.failCount = s.failCount ∧ s1.active = s.active ∧ s1.authenticated = s.authenticated ∧ s1.chans = s.chans ∧
   (∀ u, s.authUser = some u → s1.authUser = some u) ∧
   (∀ c ∈ a.cbs, ∀ u, userOf c.cb = some u → s1.authUser = some u) ∧
-  a.plainOK
+  a.plainOK ∧
+  (a = .delegate true → s.authenticated = true ∨ s.chans ≠ 0)
 
 theorem DecOK_congr {s s' s1 : St} {a : Act} (h : DecOK s' s1 a)
     (h1 : s'.failCount = s.failCount) (h2 : s'.active = s.active) (h3 : s'.authenticated = s.authenticated)
@@ -389,7 +391,7 @@ theorem parseUserauthRequest_ok (sc : SigScheme) (sid : Bytes) (s : St) (b : Byt
   · have hin := authMethod_ok sc sid _ e _ _ _ _ rfl s1 a h
     unfold DecOK at hin ⊢
     simp only at hin
-    refine ⟨hin.1, hin.2.1, hin.2.2.1, hin.2.2.2.1, ?_, hin.2.2.2.2.2.1, hin.2.2.2.2.2.2⟩
+    refine ⟨hin.1, hin.2.1, hin.2.2.1, hin.2.2.2.1, ?_, hin.2.2.2.2.2.1, hin.2.2.2.2.2.2.1, hin.2.2.2.2.2.2.2⟩
     intro u hu
     have hx := pin_lemma s _ (by assumption) u hu
     subst hx
@@ -430,6 +432,11 @@ theorem authDispatch_ok (sc : SigScheme) (sid : Bytes) (s : St) (p : Nat) (b : B
   · exact parseUserauthRequest_ok sc sid s b e s1 a h
   · exact parseInfoResponse_ok s b e s1 a h
 
+theorem ensureAuthedReply_ne_delegate (p : Nat) (b : Bytes) (c : Bool) : ensureAuthedReply p b ≠ .delegate c := by
+  unfold ensureAuthedReply
+  repeat' split
+  all_goals simp
+
 theorem dispatch_ok (sc : SigScheme) (sid : Bytes) (s : St) (p : Nat) (b : Bytes) (e : Env) (s1 : St) (a : Act)
     (h : dispatch sc sid s p b e = (s1, a)) : DecOK s s1 a := by
   unfold dispatch at h
@@ -438,11 +445,17 @@ theorem dispatch_ok (sc : SigScheme) (sid : Bytes) (s : St) (p : Nat) (b : Bytes
     all_goals (obtain ⟨rfl, rfl⟩ := Prod.mk.inj h)
     · simp [DecOK, Act.cbs, Act.plainOK]
     · simp [DecOK, Act.cbs, Act.plainOK]
-    · simp [DecOK, Act.cbs, Act.plainOK]
+    · rename_i hauth
+      have : s.authenticated = true := by
+        simp only [St.isAuthenticated, Bool.and_eq_true] at hauth; exact hauth.2
+      simp [DecOK, Act.cbs, Act.plainOK, this]
     · have := ensureAuthedReply_plain p b
-      simp [DecOK, this.1, this.2]
+      simp [DecOK, this.1, this.2, ensureAuthedReply_ne_delegate]
   · repeat' (split at h)
-    all_goals (obtain ⟨rfl, rfl⟩ := Prod.mk.inj h; simp [DecOK, Act.cbs, Act.plainOK])
+    all_goals (obtain ⟨rfl, rfl⟩ := Prod.mk.inj h)
+    · simp [DecOK, Act.cbs, Act.plainOK]
+    · rename_i hch
+      simp [DecOK, Act.cbs, Act.plainOK, hch]
   · exact authDispatch_ok sc sid s p b e s1 a h
   · repeat' (split at h)
     all_goals (obtain ⟨rfl, rfl⟩ := Prod.mk.inj h; simp [DecOK, Act.cbs, Act.plainOK, np_cons])
@@ -505,7 +518,7 @@ theorem step_count_lb : s.failCount + np (step sc sid s p b e).2.sent ≤ (step 
   by_cases h : s.active = true
   · rw [step_active _ _ _ _ _ _ h]
     have d := step_dec sc sid s p b e
-    have := perform_count_lb (decideAct sc sid s p b e).1 e _ d.2.2.2.2.2.2
+    have := perform_count_lb (decideAct sc sid s p b e).1 e _ d.2.2.2.2.2.2.1
     rw [d.1] at this; exact this
   · simp only [Bool.not_eq_true] at h
     rw [step_inactive _ _ _ _ _ _ h]; simp
@@ -514,7 +527,7 @@ theorem step_cap (hlt : s.failCount < FAIL_CAP) : s.failCount + np (step sc sid 
   by_cases h : s.active = true
   · rw [step_active _ _ _ _ _ _ h]
     have d := step_dec sc sid s p b e
-    have := perform_cap (decideAct sc sid s p b e).1 e _ d.2.2.2.2.2.2 (by rw [d.1]; exact hlt)
+    have := perform_cap (decideAct sc sid s p b e).1 e _ d.2.2.2.2.2.2.1 (by rw [d.1]; exact hlt)
     rw [d.1] at this; exact this
   · simp only [Bool.not_eq_true] at h
     rw [step_inactive _ _ _ _ _ _ h]; simp; unfold FAIL_CAP at *; omega
